@@ -57,6 +57,13 @@ def _alarm(signum, frame):
     raise Budget()
 
 
+def _short(v):
+    try:
+        return str(v)[:60]
+    except RecursionError:
+        return "<a value nested too deeply to print>"
+
+
 def run_case(q, extra_doc=None, inline=False):
     """Return None or a failure dict."""
     if inline:
@@ -104,8 +111,8 @@ def run_case(q, extra_doc=None, inline=False):
                 raise Budget()
             if not r["jsonpath_error"]:
                 return {"bucket": f"find:{r['type']}:{r['frame']}", "stage": "find",
-                        "what": f"find({q[:120]!r}, {str(v)[:60]}) raised {r['type']}: {r['str']}",
-                        "expected": "a JSONPathError or a nodelist", "observed": r, "value": v}
+                        "what": f"find({q[:120]!r}, {_short(v)}) raised {r['type']}: {r['str']}",
+                        "expected": "a JSONPathError or a nodelist", "observed": r, "value": _short(v)}
             if not r["str_ok"]:
                 return {"bucket": f"str-of-error:{r['type']}:{r['frame']}", "stage": "find",
                         "what": f"str() of the {r['type']} raised by find({q[:120]!r}) fails", "expected": "a message",
@@ -113,8 +120,17 @@ def run_case(q, extra_doc=None, inline=False):
     return None
 
 
+def deep_value_doc(depth, shape):
+    a = b = 1
+    for _ in range(depth):
+        a, b = ([a], [b]) if shape == "arr" else ({"k": a}, {"k": b})
+    return [{"a": a, "b": b}, {"a": a, "b": 0}]
+
+
 def examine(case):
     q = case["q"]
+    if case.get("deep_value"):
+        case = dict(case, doc=deep_value_doc(*case["deep_value"]))
     old = signal.signal(signal.SIGVTALRM, _alarm)
     try:
         for attempt in (1, 2):
@@ -220,6 +236,21 @@ def call_shape(r):
     return f"$..[?{call} || {r.choice(ARGS)}]"
 
 
+def escape_input(r):
+    """A quoted literal with an escape whose payload is drawn from characters that number parsers elsewhere tolerate."""
+    alpha = ["0", "4", "A", "f", "d", "8", " ", "\t", "+", "-", "_", "x", "\n", "\u0664", "g", "\ud7ff", "{", "}"]
+    quote = r.choice("'\"")
+    k = r.random()
+    if k < 0.6:
+        esc = "\\u" + "".join(r.choice(alpha) for _ in range(r.choice([4, 4, 4, 3, 5, 8])))
+        if r.random() < 0.3:
+            esc += "\\u" + "".join(r.choice(alpha) for _ in range(4))
+    else:
+        esc = "\\" + r.choice(["x41", "U00000041", "N{DASH}", "0", "101", "\n", " ", "'", "\"", "a", "e", "v", "u{41}"])
+    lit = quote + r.choice(["", "a", "ab"]) + esc + r.choice(["", "z"]) + quote
+    return r.choice(["$[%s]", "$[?@ == %s]", "$[?match(@, %s)]", "$[?@.a == %s || @.b]", "$.a[%s, 0]", "$[?length(%s) == 1]"]) % lit
+
+
 def unicode_text(r):
     pools = ["$@.[]()?*!=<>&|,:'\"\\ \t\n\r", "abcxyz_019eE+-", "\u00e9\u4e2d\U0001F600\u2028\x00\x1f\x7f\ufeff\uffff\U0010ffff"]
     n = r.choice([1, 2, 5, 10, 30, 100, 400, 1024])
@@ -268,6 +299,7 @@ def run_shard(spec, shard):
             record(shard, m, "mutant")
         record(shard, M.token_sequence(r, 12), "token-sequence")
         record(shard, call_shape(r), "call-shape")
+        record(shard, escape_input(r), "escape")
         k = r.randrange(4)
         if k == 0:
             record(shard, nested(r), "nested")
@@ -289,15 +321,27 @@ def run_shard(spec, shard):
             f = examine(case)
             if f:
                 shard.fail(f["bucket"], case, f, size=len(q))
+    if spec["shard"] == 1:
+        # values nested far deeper than any query: every evaluation path that looks INTO a value (comparison of
+        # containers, function arguments, filters over the deep part) must complete or raise a JSONPathError
+        for depth in (150, 400, 600, 900, 1500, 3000):
+            for shape in ("arr", "obj"):
+                for q in ("$[?@.a == @.b]", "$[?@.a != @.b]", "$[?@.a <= @.b]", "$[?@.a == $[1].a]", "$[?length(@.a) == 1]", "$[?value(@.a) == @.b]",
+                          "$[?count(@.*) == 2]", "$[?@.a]", "$[?match(@.a, 'x')]", "$[0].a", "$[?@.b == 0].a"):
+                    case = {"q": q, "deep_value": [depth, shape]}
+                    shard.case(key=(q, depth, shape), nontrivial=True, classes={"gen:deep-value"}, sample={"q": q, "origin": f"value nested {depth} deep ({shape})"})
+                    f = examine(case)
+                    if f:
+                        shard.fail(f["bucket"], case, f, size=depth)
 
 
 def run_atheris(spec, shard):
     """A libFuzzer campaign in a child process; crash artifacts become cases."""
     here = os.path.dirname(os.path.dirname(os.path.abspath(__file__)))
     work = os.path.join(here, "out", f"atheris-{spec['seed']}-{spec['idx']}")
+    import shutil
+    shutil.rmtree(work, ignore_errors=True)     # a fresh corpus directory: an interrupted earlier run may have left one
     os.makedirs(work, exist_ok=True)
-    for f in os.listdir(work):
-        os.unlink(os.path.join(work, f))
     cmd = [sys.executable, "-X", "utf8", os.path.join(here, "fuzz", "compile_target.py"), "--work", work,
            "--corpus", spec["corpus"], "--runs", str(spec["runs"]), "--seed", str(spec["seed"] % (2**31))]
     try:
